@@ -38,17 +38,20 @@ type c06Pkt struct {
 }
 
 type c06Scenario struct {
-	Mode     string    `json:"mode,omitempty"` // "" = in flight, "exit", "alloc"
-	Stream   []byte    `json:"stream,omitempty"`
-	BodyLen  int       `json:"body_len,omitempty"`
-	Mpl      int       `json:"mpl,omitempty"`
-	Cfg      int       `json:"cfg,omitempty"`
-	Ops      []c06RsOp `json:"ops,omitempty"`
-	Inflight bool      `json:"inflight"`
-	Handler  bool      `json:"handler"`
-	Reqs     []c06Req  `json:"reqs"`
-	Burst    []c06Pkt  `json:"burst"`
-	Label    string    `json:"label"`
+	Mode        string    `json:"mode,omitempty"` // "" = in flight, "exit", "alloc"
+	Stream      []byte    `json:"stream,omitempty"`
+	BodyLen     int       `json:"body_len,omitempty"`
+	Mpl         int       `json:"mpl,omitempty"`
+	WithConnack bool      `json:"with_connack,omitempty"` // the stream arrives in the same burst as CONNACK
+	Workers     int       `json:"workers,omitempty"`
+	Budget      int       `json:"budget_ms,omitempty"`
+	Cfg         int       `json:"cfg,omitempty"`
+	Ops         []c06RsOp `json:"ops,omitempty"`
+	Inflight    bool      `json:"inflight"`
+	Handler     bool      `json:"handler"`
+	Reqs        []c06Req  `json:"reqs"`
+	Burst       []c06Pkt  `json:"burst"`
+	Label       string    `json:"label"`
 }
 
 type c06InflightObs struct {
